@@ -16,6 +16,17 @@ from hypothesis import strategies as st
 from vf.zoo import A, unit, vec
 
 
+SUPPLIED = None  # when a list, every array handed to a mici constructor is appended to it
+
+
+def _r(x):
+    if isinstance(x, np.ndarray) and x.dtype.kind == "f" and x.flags.writeable:
+        x += 0.0  # canonicalise -0.0 to 0.0 (byte hashes vs numeric equality of -0.0 is outside C19)
+    if SUPPLIED is not None and isinstance(x, np.ndarray):
+        SUPPLIED.append(x)
+    return x
+
+
 class Discard(Exception):
     """Generated parameters fell outside the well-conditioned domain (counted, never a pass)."""
 
@@ -296,8 +307,8 @@ def _build_lowrank(spec, cb):
     _cond(R)
     _cond(C)
     asM = spec["factor_as"] == "Matrix"
-    Lm = mm.DenseRectangularMatrix(L) if asM else L
-    Rm = mm.DenseRectangularMatrix(Rf) if asM else Rf
+    Lm = mm.DenseRectangularMatrix(_r(L.copy())) if asM else _r(L.copy())
+    Rm = mm.DenseRectangularMatrix(_r(Rf.copy())) if asM else _r(Rf.copy())
     cap = None
     feats = base.feats | (inner.feats if inner else set()) | {"op:lowrank", "sign:%d" % sign}
     if sign == -1:
@@ -306,15 +317,15 @@ def _build_lowrank(spec, cb):
         feats.add("supplied-capacitance")
     if kind == "sq":
         if spec["capacitance"]:
-            cap = mm.DenseSquareMatrix(C)
+            cap = mm.DenseSquareMatrix(_r(C.copy()))
         M = mm.SquareLowRankUpdateMatrix(Lm, Rm, base.M, inner.M if inner else None, cap, sign)
     elif kind == "sym":
         if spec["capacitance"]:
-            cap = mm.DenseSymmetricMatrix(0.5 * (C + C.T))
+            cap = mm.DenseSymmetricMatrix(_r(0.5 * (C + C.T)))
         M = mm.SymmetricLowRankUpdateMatrix(Lm, base.M, inner.M if inner else None, cap, sign)
     else:
         if spec["capacitance"]:
-            cap = mm.DensePositiveDefiniteMatrix(0.5 * (C + C.T))
+            cap = mm.DensePositiveDefiniteMatrix(_r(0.5 * (C + C.T)))
         M = mm.PositiveDefiniteLowRankUpdateMatrix(Lm, base.M, inner.M if inner else None, cap, sign)
     feats.add("cls:" + type(M).__name__)
     kap = base.kappa * (inner.kappa if inner else 1.0) * np.linalg.cond(C) * np.linalg.cond(R)
@@ -339,28 +350,28 @@ def _build_leaf(p):
     if cls.startswith("DenseSquare") or cls.startswith("InverseLU"):
         X = gen_sq(p, n)
         if cls == "DenseSquare":
-            return mm.DenseSquareMatrix(X), X, feats
+            return mm.DenseSquareMatrix(_r(X.copy())), X, feats
         if cls in ("DenseSquare_lu", "DenseSquare_luT"):
             tr = cls.endswith("T")
             lu = sla.lu_factor(X.T if tr else X)
-            return mm.DenseSquareMatrix(X, lu, tr), X, feats | {"supplied-factor"}
+            return mm.DenseSquareMatrix(_r(X.copy()), (_r(lu[0]), _r(lu[1])), tr), X, feats | {"supplied-factor"}
         tr = cls.endswith("_T")
         lu = sla.lu_factor(X.T if tr else X)
-        return (mm.InverseLUFactoredSquareMatrix(X, lu, inv_lu_transposed=tr), np.linalg.inv(X),
+        return (mm.InverseLUFactoredSquareMatrix(_r(X.copy()), (_r(lu[0]), _r(lu[1])), inv_lu_transposed=tr), np.linalg.inv(X),
                 feats | {"supplied-factor"})
     if cls in ("Triangular", "InverseTriangular"):
         T, arr = _tri_param(p, n)
         if not p["make_triangular"]:
             arr = T
         C = mm.TriangularMatrix if cls == "Triangular" else mm.InverseTriangularMatrix
-        M = C(arr, lower=p["lower"], make_triangular=p["make_triangular"])
+        M = C(_r(arr.copy()), lower=p["lower"], make_triangular=p["make_triangular"])
         return M, (T if cls == "Triangular" else np.linalg.inv(T)), feats | {"lower" if p["lower"] else "upper"}
     if cls == "Orthogonal":
         Q = orth(p["G"])
-        return mm.OrthogonalMatrix(Q), Q, feats
+        return mm.OrthogonalMatrix(_r(Q.copy())), Q, feats
     if cls == "ScaledOrthogonal":
         Q = orth(p["G"])
-        return mm.ScaledOrthogonalMatrix(p["s"], Q), p["s"] * Q, feats
+        return mm.ScaledOrthogonalMatrix(p["s"], _r(Q.copy())), p["s"] * Q, feats
     if cls == "Identity":
         return mm.IdentityMatrix(n), np.eye(n), feats
     if cls == "ScaledIdentity":
@@ -368,18 +379,18 @@ def _build_leaf(p):
     if cls == "PositiveScaledIdentity":
         return mm.PositiveScaledIdentityMatrix(p["s"], n), p["s"] * np.eye(n), feats
     if cls == "Diagonal":
-        return mm.DiagonalMatrix(A(p["d"])), np.diag(A(p["d"])), feats
+        return mm.DiagonalMatrix(_r(A(p["d"]))), np.diag(A(p["d"])), feats
     if cls == "PositiveDiagonal":
-        return mm.PositiveDiagonalMatrix(A(p["d"])), np.diag(A(p["d"])), feats
+        return mm.PositiveDiagonalMatrix(_r(A(p["d"]))), np.diag(A(p["d"])), feats
     if cls in ("TriFactoredDefinite", "TriFactoredPD"):
         T, arr = _tri_param(p, n)
         fa = p["factor_as"]
         if fa == "array":
-            f, kw = arr, {"factor_is_lower": p["lower"]}
+            f, kw = _r(arr.copy()), {"factor_is_lower": p["lower"]}
         elif fa == "Triangular":
-            f, kw = mm.TriangularMatrix(T, lower=p["lower"]), {}
+            f, kw = mm.TriangularMatrix(_r(T.copy()), lower=p["lower"]), {}
         else:
-            f, kw = mm.InverseTriangularMatrix(np.linalg.inv(T), lower=p["lower"]), {}
+            f, kw = mm.InverseTriangularMatrix(_r(np.linalg.inv(T)), lower=p["lower"]), {}
         feats |= {"supplied-factor"} if fa != "array" else set()
         feats |= {"lower" if p["lower"] else "upper"}
         if cls == "TriFactoredPD":
@@ -392,13 +403,13 @@ def _build_leaf(p):
         f = None
         if p.get("factor"):
             Lc = np.linalg.cholesky(X)
-            f = mm.TriangularMatrix(Lc, lower=True) if p["factor"] == "Triangular" else \
-                mm.InverseTriangularMatrix(np.linalg.inv(Lc), lower=True)
+            f = mm.TriangularMatrix(_r(Lc), lower=True) if p["factor"] == "Triangular" else \
+                mm.InverseTriangularMatrix(_r(np.linalg.inv(Lc)), lower=True)
             feats.add("supplied-factor")
         if cls == "DenseDefinite":
             feats.add("sign:%d" % p["sign"])
-            return mm.DenseDefiniteMatrix(p["sign"] * X, f, is_posdef=(p["sign"] == 1)), p["sign"] * X, feats
-        return mm.DensePositiveDefiniteMatrix(X, f), X, feats
+            return mm.DenseDefiniteMatrix(_r(p["sign"] * X), f, is_posdef=(p["sign"] == 1)), p["sign"] * X, feats
+        return mm.DensePositiveDefiniteMatrix(_r(X.copy()), f), X, feats
     if cls == "DensePDProduct":
         k = p["k"]
         Rr = A(p["R"]).reshape(n, k)
@@ -407,25 +418,26 @@ def _build_leaf(p):
         inner = build(p["inner"]) if p["inner"] is not None else None
         P = inner.R if inner is not None else np.eye(k)
         X = Rr @ P @ Rr.T
-        M = mm.DensePositiveDefiniteProductMatrix(Rr, inner.M if inner is not None else None)
+        M = mm.DensePositiveDefiniteProductMatrix(_r(Rr.copy()), inner.M if inner is not None else None)
         return M, X, feats | (inner.feats if inner else set())
     if cls in ("DenseSymmetric", "DenseSymmetric_eig", "EigSymmetric", "EigPD"):
         V = orth(p["G"])
         lam = A(p["lam"])
         X = (V * lam) @ V.T
-        Vm = mm.OrthogonalMatrix(V) if p["eigvec_as"] == "Orthogonal" else V
+        Vm = mm.OrthogonalMatrix(_r(V.copy())) if p["eigvec_as"] == "Orthogonal" else _r(V.copy())
+        lam_in = _r(lam.copy())
         if cls == "DenseSymmetric":
-            return mm.DenseSymmetricMatrix(0.5 * (X + X.T)), 0.5 * (X + X.T), feats
+            return mm.DenseSymmetricMatrix(_r(0.5 * (X + X.T))), 0.5 * (X + X.T), feats
         if cls == "DenseSymmetric_eig":
-            return mm.DenseSymmetricMatrix(X, Vm, lam), X, feats | {"supplied-factor"}
+            return mm.DenseSymmetricMatrix(_r(X.copy()), Vm, lam_in), X, feats | {"supplied-factor"}
         if cls == "EigSymmetric":
-            return mm.EigendecomposedSymmetricMatrix(Vm, lam), X, feats
-        return mm.EigendecomposedPositiveDefiniteMatrix(Vm, lam), X, feats
+            return mm.EigendecomposedSymmetricMatrix(Vm, lam_in), X, feats
+        return mm.EigendecomposedPositiveDefiniteMatrix(Vm, lam_in), X, feats
     if cls == "SoftAbs":
         from vf.zoo import softabs_dense
 
         V = orth(p["G"])
         S = (V * A(p["lam"])) @ V.T
         S = 0.5 * (S + S.T)
-        return (mm.SoftAbsRegularizedPositiveDefiniteMatrix(S, p["coeff"]), softabs_dense(S, p["coeff"]), feats)
+        return (mm.SoftAbsRegularizedPositiveDefiniteMatrix(_r(S.copy()), p["coeff"]), softabs_dense(S, p["coeff"]), feats)
     raise ValueError(cls)
